@@ -32,7 +32,7 @@ Definition effect_eqb (a b : effect) : bool :=
 
 Definition node_eqb (a b : node) : bool :=
   Bool.eqb (n_taint a) (n_taint b) && Bool.eqb (n_cond a) (n_cond b) && Bool.eqb (n_del a) (n_del b) &&
-  Bool.eqb (n_mark a) (n_mark b) && Bool.eqb (n_stdel a) (n_stdel b).
+  Bool.eqb (n_mark a) (n_mark b) && Bool.eqb (n_stdel a) (n_stdel b) && Bool.eqb (n_gone a) (n_gone b).
 
 Definition repl_eqb (a b : repl) : bool :=
   Bool.eqb (r_exists a) (r_exists b) && Bool.eqb (r_init a) (r_init b) &&
